@@ -12,3 +12,32 @@ package client
 //@ func waitForCacheConsistent
 //@ requires db != nil
 //@ lock_delta db.cacheMutex R 1
+
+// ---- reconnect bookkeeping (C16, C01) ---------------------------------------------
+
+//@ func (*ovsdbClient).resetRPCClient
+//@ requires o != nil
+//@ modifies o.rpcClient
+//@ ensures o.rpcClient == nil
+
+// A failed connect attempt leaves no RPC client behind, so the next attempt
+// starts clean instead of returning ErrAlreadyConnected for ever.
+//@ func (*ovsdbClient).connect
+//@ requires o != nil
+//@ ensures_err old(o.rpcClient) != nil || o.rpcClient == nil
+//@ loop 1 invariant old(o.rpcClient) == nil && (!connected ==> o.rpcClient == nil)
+
+// Every reconnect attempt first switches every database to deferring
+// notifications with an empty buffer (under the cache lock), so that nothing
+// is applied to the cache before the re-issued monitor's reply (C01).
+//@ func (*ovsdbClient).handleDisconnectNotification$1
+//@ at call client.(*ovsdbClient).connect requires arg2 == true
+//@ at call client.(*ovsdbClient).connect requires forall n: string :: (n in o.databases) ==> (o.databases[n].deferUpdates && len(o.databases[n].deferredUpdates) == 0)
+//@ loop 1 invariant forall n: string :: visited(n) && (n in o.databases) ==> (o.databases[n].deferUpdates && len(o.databases[n].deferredUpdates) == 0)
+
+// transact: traffic is reported as seen only after the server has answered.
+//@ func (*ovsdbClient).transact
+//@ trace rpc2.(*Client).CallWithContext chan-send:o.trafficSeen
+//@ at call chan-send:o.trafficSeen requires calls("rpc2.(*Client).CallWithContext") == 1
+//@ ensures calls("rpc2.(*Client).CallWithContext") <= 1
+//@ ensures_ok calls("rpc2.(*Client).CallWithContext") == 1
